@@ -472,11 +472,13 @@ def _self_none_assign(st):
 
 
 def extract_roll_state(rtree, htree):
-    """-> dict(private, resets, reset_after_hooks, memo_fields, methods, hook_reads), list of gaps.
+    """-> dict(private, resets, resets_before, resets_after, reset_order, empties_first, memo_fields, methods, hook_reads),
+    list of gaps.
 
     roll.py: the module holds nothing but imports, `__all__` and the class; `Roll.__init__` creates private attributes only as
-    `self._x = None`; `Roll.reevaluate_cache` is `super().reevaluate_cache()` and `self._x = None` statements (their order is
-    recorded); every other method / property either mentions no `self._…` at all (pure) or has the memo shape
+    `self._x = None`; `Roll.reevaluate_cache` is ONE `super().reevaluate_cache()` and `self._x = None` statements before and / or after
+    it (which attribute is emptied before, which after the hook values are re-evaluated is recorded: `resets_before`,
+    `resets_after`, `reset_order` = before / after / both / none); every other method / property either mentions no `self._…` at all (pure) or has the memo shape
     `if self._f: return self._f` / `self._f = <expr without self._…>` / `return self._f`; decorators other than `property`,
     `global` / `nonlocal`, assignments to other attributes of `self` are outside the subset.
     hookimpls.py: the module holds nothing but imports and functions registered on hooks of `Roll`; none of them mentions a
@@ -524,8 +526,10 @@ def extract_roll_state(rtree, htree):
                 continue
             else:
                 gaps.append(f"{RR}: Roll.__init__: statement outside the subset: `{ast.unparse(st)[:60]}`")
-    # reevaluate_cache
-    resets, after = [], True
+    # reevaluate_cache: `self._x = None` statements around ONE `super().reevaluate_cache()`; which of them stand before it
+    # (the hook functions then find nothing remembered when the cached hook values are re-evaluated) and which after it (what
+    # was remembered meanwhile is dropped again) is recorded - one attribute may be in both lists
+    resets_before, resets_after = [], []
     rc = methods_ast.pop("reevaluate_cache", None)
     if rc is None:
         gaps.append(f"{RR}: Roll.reevaluate_cache not found")
@@ -534,22 +538,17 @@ def extract_roll_state(rtree, htree):
         sup = [i for i, st in enumerate(body) if _same(st, "super().reevaluate_cache()")]
         if len(sup) != 1:
             gaps.append(f"{RR}: Roll.reevaluate_cache: `super().reevaluate_cache()` must occur exactly once")
-        pos = []
         for i, st in enumerate(body):
             a = _self_none_assign(st)
             if a is not None:
-                resets.append(a)
-                pos.append(i)
+                if len(sup) == 1:
+                    dst = resets_before if i < sup[0] else resets_after
+                    if a not in dst:
+                        dst.append(a)
             elif i not in sup:
                 gaps.append(f"{RR}: Roll.reevaluate_cache: statement outside the subset: `{ast.unparse(st)[:60]}`")
-        if sup and pos:
-            if all(i > sup[0] for i in pos):
-                after = True
-            elif all(i < sup[0] for i in pos):
-                after = False
-            else:
-                gaps.append(f"{RR}: Roll.reevaluate_cache: private attributes emptied both before and after the hook values "
-                            f"are re-evaluated")
+    resets = resets_before + [a for a in resets_after if a not in resets_before]
+    order = ("both" if resets_before and resets_after else "before" if resets_before else "after" if resets_after else "none")
     # the other methods / properties
     methods, memo_fields = [], {}
     for name, fn in methods_ast.items():
@@ -609,16 +608,19 @@ def extract_roll_state(rtree, htree):
             a = _self_attr(n) if isinstance(n, ast.Attribute) else None
             if a in names and (hook, a) not in hook_reads:
                 hook_reads.append((hook, a))
-    return dict(private=private, resets=resets, reset_after_hooks=after, memo_fields=sorted(memo_fields.items()),
-                methods=methods, hook_reads=hook_reads), gaps
+    # is everything a remembering method keeps emptied BEFORE the hook values are re-evaluated (`RollTables.emptiesFirst`)?
+    empties_first = all(k[1] in resets_before for _, k in methods if k[0] == "memo")
+    return dict(private=private, resets=resets, resets_before=resets_before, resets_after=resets_after, reset_order=order,
+                empties_first=empties_first, memo_fields=sorted(memo_fields.items()), methods=methods,
+                hook_reads=hook_reads), gaps
 
 
 def lean_roll_tables(rs):
     def q(x):
         return '"' + x + '"'
-    return ("{ privateFields := [" + ", ".join(q(f) for f in rs["private"]) + "],\n    resets := ["
-            + ", ".join(q(f) for f in rs["resets"]) + "],\n    resetAfterHooks := "
-            + ("true" if rs["reset_after_hooks"] else "false") + ",\n    memoFields := ["
+    return ("{ privateFields := [" + ", ".join(q(f) for f in rs["private"]) + "],\n    resetsBefore := ["
+            + ", ".join(q(f) for f in rs["resets_before"]) + "],\n    resetsAfter := ["
+            + ", ".join(q(f) for f in rs["resets_after"]) + "],\n    memoFields := ["
             + ", ".join(f"({q(f)}, .{d})" for f, d in rs["memo_fields"]) + "],\n    methods := ["
             + ", ".join(f"({q(m)}, " + (".pure" if k[0] == "pure" else f".memo {q(k[1])}") + ")" for m, k in rs["methods"])
             + "],\n    hookReads := [" + ", ".join(f"({q(h)}, {q(m)})" for h, m in rs["hook_reads"]) + "] }")
@@ -909,8 +911,10 @@ def extract_spline(tree):
 PLACEHOLDER = '(.var "<untranslatable>")'
 
 
-def emit(ctx):
-    """writes Gen/C10.lean; returns a dict with everything extracted (used by the harness for the correspondence)"""
+def emit(ctx, reset_first_required=False):
+    """writes Gen/C10.lean; returns a dict with everything extracted (used by the harness for the correspondence).
+    `reset_first_required` (driver/props/c10.py `RESET_FIRST_REQUIRED`): `Roll.reevaluate_cache` must empty what the roll
+    remembers BEFORE the hook values are re-evaluated - any other statement order is a gap then."""
     info = {"gaps": []}
 
     def gap(what):
@@ -1056,17 +1060,24 @@ def emit(ctx):
         gap(f"{RR}: {ex}")
         L.append("def interp_grid_transposed : Bool := false")
     L.append("/-- what a `Roll` keeps on the object between two calls besides the hook cache: private attributes of `__init__`, "
-             "the ones `reevaluate_cache` empties (and whether after the hook values were re-evaluated), which methods remember "
-             "their result where, which hook functions read such a method -/")
+             "the ones `reevaluate_cache` empties before resp. after the hook values are re-evaluated (`super().reevaluate_cache()`), "
+             "which methods remember their result where, which hook functions read such a method -/")
     try:
         rs, rgaps = extract_roll_state(_parse(RR), rtree)
     except Gap as ex:
-        rs, rgaps = dict(private=[], resets=[], reset_after_hooks=True, memo_fields=[], methods=[], hook_reads=[]), [f"{RR}: {ex}"]
+        rs, rgaps = dict(private=[], resets=[], resets_before=[], resets_after=[], reset_order=None, empties_first=None,
+                         memo_fields=[], methods=[], hook_reads=[]), [f"{RR}: {ex}"]
+    if reset_first_required and not rs["empties_first"]:
+        rgaps.append(f"{RR}: Roll.reevaluate_cache does not empty everything the roll remembers before the hook values are "
+                     f"re-evaluated (statement order read: {rs['reset_order']}; required: RESET_FIRST_REQUIRED)")
     for g in rgaps:
         gap(g)
     info["roll_state"] = rs
     L.append("def roll_tables : RollTables :=\n  " + lean_roll_tables(rs))
     L.append(f"def roll_state_ok : Bool := {'false' if rgaps else 'true'}")
+    L.append("/-- driver/props/c10.py `RESET_FIRST_REQUIRED`: must `Roll.reevaluate_cache` empty what the roll remembers before "
+             "the hook values are re-evaluated? -/")
+    L.append(f"def roll_reset_first_required : Bool := {'true' if reset_first_required else 'false'}")
     L.append("")
     L.append(f"/-! entry point ({SY}) -/")
     ep = [i for i in pyexpr.extract_hookimpls(os.path.join(_repo(), SY), module_name=SY) if i.hook == "entry_point"]
